@@ -37,6 +37,7 @@ META = dict(
     design_ref="DESIGN.md §3 C11")
 
 TOL = 1e-9
+ENBL_DIAGEXACT = 1 << 5
 SOLVER_NAME = {C.SOL_PGS: "PGS", C.SOL_CG: "CG", C.SOL_NEWTON: "Newton"}
 CONE_NAME = {C.CONE_PYRAMIDAL: "pyramidal", C.CONE_ELLIPTIC: "elliptic"}
 
@@ -214,11 +215,14 @@ def _chunk(chunk):
                     for noslip in (0, 3):
                         for iters in (2, 100):
                             for jac in (C.JAC_DENSE, C.JAC_SPARSE):
-                                for island in (True, False):
+                                # (island, diagexact): the exact-diagonal option re-derives R/D after island discovery, so it is
+                                # crossed with islands on (full iterations only; the 2-iteration iterate adds nothing new there)
+                                for island, diag in ((True, 0), (False, 0)) + (((True, 1),) if iters == 100 else ()):
                                     host.set_options(cone=cone, impratio=impratio, solver=solver, noslip=noslip,
-                                                     iterations=iters, jacobian=jac, island=island, tolerance=1e-10)
+                                                     iterations=iters, jacobian=jac, island=island, tolerance=1e-10,
+                                                     enable=ENBL_DIAGEXACT if diag else 0)
                                     replay = {"skel": skel, "atoms": atoms, "eq": eqkind, "state": st, "cone": cone,
-                                              "impratio": impratio, "solver": solver, "noslip": noslip,
+                                              "impratio": impratio, "solver": solver, "noslip": noslip, "diagexact": diag,
                                               "iterations": iters, "jacobian": jac, "island": island, "xml": host.xml}
                                     try:
                                         lib.mj_forward(host.m, host.d)
@@ -242,6 +246,8 @@ def _chunk(chunk):
                                                                    if active and solver == C.SOL_PGS and noslip and mi % 97 == 0 else None))
                                     if int(host.d.nisland) > 1:
                                         part.add("runs_with_2plus_islands")
+                                    if diag:
+                                        part.add("runs_with_diagexact")
                                     if noslip:
                                         part.add("runs_with_noslip")
         host.free()
@@ -258,7 +264,8 @@ def run(ctx):
     ctx.extra["mixes"] = len(mixes)
     ctx.rule = ("skeleton %s x all 511 non-empty subsets of {E(connect|weld|joint),F,L,T,C1,C3,C4,C6} x cone/impratio %s x "
                 "state lattice (contact k at dist %s rotated by cs, limit k at %s rotated by ls, %s) x solver{Newton,CG,PGS} x "
-                "noslip{0,3} x iterations{2,100} x jacobian{dense,sparse} x island{on,off}; evaluation = one mj_forward with all "
+                "noslip{0,3} x iterations{2,100} x jacobian{dense,sparse} x {island on, island off, island on + diagexact (full "
+                "iterations)}; evaluation = one mj_forward with all "
                 "oracles; non-trivial = distinct (skeleton, mix, cone, impratio, state) with a non-zero constraint force"
                 % (skels, "{pyr,ell}x{1,4}" if ctx.thorough else "{pyr/1, ell/4}", C.CONTACT_DIST, C.LIMIT_STATE_NAME,
                    "2 configurations x 3 velocity patterns" if ctx.thorough else "bent configuration x 2 non-zero velocity patterns"))
@@ -276,7 +283,8 @@ def replay(ctx, path):
     part = core.Part()
     host.apply_state(tuple(r["state"]))
     host.set_options(cone=int(r["cone"]), impratio=float(r["impratio"]), solver=int(r["solver"]), noslip=int(r["noslip"]),
-                     iterations=int(r["iterations"]), jacobian=int(r["jacobian"]), island=bool(r["island"]), tolerance=1e-10)
+                     iterations=int(r["iterations"]), jacobian=int(r["jacobian"]), island=bool(r["island"]), tolerance=1e-10,
+                     enable=ENBL_DIAGEXACT if r.get("diagexact") else 0)
     lib.mj_forward(host.m, host.d)
     check_forces(lib, host, part, (CONE_NAME[int(r["cone"])], SOLVER_NAME[int(r["solver"])], "on" if r["noslip"] else "off"), r)
     for v in part["violations"]:
